@@ -33,6 +33,8 @@ func checkC11(c *Ctx, r *Report) {
 	r.rule("C11.R3.empty-keyring", 1, "the server selects TSIG verification on TsigSecret != nil, not on its size")
 	emptyKeyring(c, r, "C11.R3.empty-keyring")
 	borrow(c, r, func(c *Ctx, r *Report) { c15FreshTime(c, r, "C15.R4.fresh-time") }, "C15.R4.fresh-time", "C11.R5.fresh-time", 1, "each envelope's TSIG carries the time it is sent at", nil, "envelopes sent more than fudge seconds after the transfer began fail the receiver's time check although the MAC chain is intact")
+	tsigIsLast(c, r, "C11.R1.tsig-last")
+	tsigStubKept(c, r, "C11.R1.stub-kept", "a message that was signed once goes out unsigned when it is sent again (the retry over TCP after a truncated answer): the peer's verification fails although nothing was altered")
 }
 
 func isUint64(v ssa.Value) bool {
@@ -733,17 +735,48 @@ func c11R5(c *Ctx, r *Report) {
 					}
 					return v
 				}())
-				if k == 1 && base != nil {
+				if base != nil {
 					if lc, ok := base.(*ssa.Call); ok && calleeNameSSA(&lc.Call) == "builtin.len" && anyIn(sliceOf(lc.Call.Args[0]), fieldPathOf(isValue(m), "Extra")) {
-						if a.Instr.Block() == rp.Block || a.Instr.Block().Dominates(rp.Block) {
-							okPatch = true
+						// the count is that of the records packed plus the TSIG: len(m.Extra) as it was when the
+						// message was packed, plus one. Stores into m.Extra between the Pack and this read (the
+						// stub TSIG being put back) are accounted for.
+						want := int64(1)
+						var packCall ssa.Instruction
+						for _, pc := range callsIn(fn, "(Msg).Pack") {
+							packCall = pc.(ssa.Instruction)
+						}
+						decided := packCall != nil
+						if ld, isLd := lc.Call.Args[0].(*ssa.UnOp); isLd && packCall != nil {
+							allInstrs(fn, func(in ssa.Instruction) {
+								st, ok := in.(*ssa.Store)
+								if !ok || !fieldPathOf(isValue(m), "Extra")(st.Addr) || !precedes(packCall, st) || !precedes(st, ld) {
+									return
+								}
+								ap, isAp := st.Val.(*ssa.Call)
+								if isAp && calleeNameSSA(&ap.Call) == "builtin.append" && len(ap.Call.Args) == 2 {
+									if sl, isSl := ap.Call.Args[1].(*ssa.Slice); isSl {
+										if al, isAl := sl.X.(*ssa.Alloc); isAl {
+											if at, isArr := al.Type().(*types.Pointer).Elem().Underlying().(*types.Array); isArr && at.Len() == 1 {
+												want-- // one record put back
+												return
+											}
+										}
+									}
+								}
+								decided = false
+							})
+						}
+						if decided && k == want {
+							if a.Instr.Block() == rp.Block || a.Instr.Block().Dominates(rp.Block) {
+								okPatch = true
+							}
 						}
 					}
 				}
 			}
 		}
 		if !okPatch {
-			problems = append(problems, fmt.Sprintf("%s: ARCOUNT (octets 10..11 of the result) is not set to len(m.Extra)+1", c.pos(rp.Pos)))
+			problems = append(problems, fmt.Sprintf("%s: ARCOUNT (octets 10..11 of the result) is not set to the number of additional records packed plus one (the TSIG)", c.pos(rp.Pos)))
 		}
 	}
 	r.check(len(problems) == 0, "C11.R5.generate", "generate:framing", c.pos(fn.Pos()), "append(mbuf, tsig...), ARCOUNT+1", "%s", strings.Join(problems, "; "))
